@@ -16,8 +16,8 @@ ID = "C12"
 CASES = {"quick": 4000, "thorough": 50000}
 FLOOR = {"quick": 3500, "thorough": 45000}
 FLOOR_COUNTERS = {
-    "quick": {"refits_on_the_same_array_objects_with_new_contents": 600, "tiny_magnitude_kernels": 180, "normalizer_fits": 1800, "sparse_fits": 1800, "test_kernels_judged": 3500, "weighted_fits": 2000, "estimators_with_a_past": 2500, "fewer_samples_than_active_points": 200, "in_place_entry_points": 3000, "non_default_containers": 1500, "tiny_magnitude_weights": 400, "more_than_2048_samples": 60, "rejected_calls_in_the_history": 1200, "aliased_kernel_arguments": 150},
-    "thorough": {"refits_on_the_same_array_objects_with_new_contents": 7000, "tiny_magnitude_kernels": 2300, "normalizer_fits": 22000, "sparse_fits": 22000, "test_kernels_judged": 45000, "weighted_fits": 25000, "estimators_with_a_past": 30000, "fewer_samples_than_active_points": 2500, "in_place_entry_points": 40000, "non_default_containers": 20000, "tiny_magnitude_weights": 5000, "more_than_2048_samples": 800, "rejected_calls_in_the_history": 15000, "aliased_kernel_arguments": 2000},
+    "quick": {"caller_weights_overwritten_after_fit": 800, "refits_on_the_same_array_objects_with_new_contents": 600, "tiny_magnitude_kernels": 180, "normalizer_fits": 1800, "sparse_fits": 1800, "test_kernels_judged": 3500, "weighted_fits": 2000, "estimators_with_a_past": 2500, "fewer_samples_than_active_points": 200, "in_place_entry_points": 3000, "non_default_containers": 1500, "tiny_magnitude_weights": 400, "more_than_2048_samples": 60, "rejected_calls_in_the_history": 1200, "aliased_kernel_arguments": 150},
+    "thorough": {"caller_weights_overwritten_after_fit": 10000, "refits_on_the_same_array_objects_with_new_contents": 7000, "tiny_magnitude_kernels": 2300, "normalizer_fits": 22000, "sparse_fits": 22000, "test_kernels_judged": 45000, "weighted_fits": 25000, "estimators_with_a_past": 30000, "fewer_samples_than_active_points": 2500, "in_place_entry_points": 40000, "non_default_containers": 20000, "tiny_magnitude_weights": 5000, "more_than_2048_samples": 800, "rejected_calls_in_the_history": 15000, "aliased_kernel_arguments": 2000},
 }
 RULE = (
     "case = explicit features F (n 2-30, f 1-8, offset so that centring matters), test features (1-40 rows), weights "
@@ -150,6 +150,10 @@ def _run_normalizer(case, j):
         Kin[...] = K
         j.note("refits_on_the_same_array_objects_with_new_contents")
     j.lib("fit", est.fit, Kin, sample_weight=sw)
+    if sw is not None and case.get("pseed", 0) % 2 == 0:
+        # the caller re-uses its weight array for something else: the fitted normaliser has kept what it needs
+        sw[...] = np.random.default_rng(case.get("pseed", 0)).uniform(0.05, 20.0, size=sw.shape)
+        j.note("caller_weights_overwritten_after_fit")
     est = forms.carry(est, case.get("carry", "same"), j)
     if case.get("reject"):
         # a failure in the history: refits with unusable weights are refused; the fitted normaliser stays what it was
@@ -209,22 +213,26 @@ def _run_sparse(case, j):
         raise Skip("centred-nystrom-trace-vanishes")
     s = np.sqrt(tr) if wt else 1.0
     bufs = []
+    swS = None if w is None else w.copy()
     est = _with_a_past(j, case, SparseKernelCenterer, n, len(Fa), buffers=bufs)
     if case.get("alias") and len(Fa) <= n and np.array_equal(F[: len(Fa)], Fa):
         # the two kernels are views of ONE kernel matrix (the active points are the first training points)
         Kfull = F @ F.T
         Kn_, Km_ = Kfull[:, : len(Fa)], Kfull[: len(Fa), : len(Fa)]
-        j.lib("fit", est.fit, Kn_, Km_, sample_weight=None if w is None else w.copy())
+        j.lib("fit", est.fit, Kn_, Km_, sample_weight=swS)
         j.ok("kernels passed as views of one matrix are what they were", np.array_equal(Kfull, F @ F.T))
         j.note("aliased_kernel_arguments")
     elif bufs and bufs[0].shape == Knm.shape and bufs[1].shape == Kmm.shape:
         # the very array objects of the earlier fit, holding the new kernels now (pre-allocated buffers)
         bufs[0][...] = Knm
         bufs[1][...] = Kmm
-        j.lib("fit", est.fit, bufs[0], bufs[1], sample_weight=None if w is None else w.copy())
+        j.lib("fit", est.fit, bufs[0], bufs[1], sample_weight=swS)
         j.note("refits_on_the_same_array_objects_with_new_contents")
     else:
-        j.lib("fit", est.fit, Knm.copy(), Kmm.copy(), sample_weight=None if w is None else w.copy())
+        j.lib("fit", est.fit, Knm.copy(), Kmm.copy(), sample_weight=swS)
+    if swS is not None and case.get("pseed", 0) % 2 == 0:
+        swS[...] = np.random.default_rng(case.get("pseed", 0)).uniform(0.05, 20.0, size=swS.shape)  # the caller re-uses its weight array
+        j.note("caller_weights_overwritten_after_fit")
     j.note("sparse_fits")
     est = forms.carry(est, case.get("carry", "same"), j)
     T = np.asarray(est.transform(Knm.copy()))
